@@ -1,12 +1,10 @@
-"""C08 - SpecAugment draws stay within bounds and masking touches only masked cells.
-
-Minimal wrapper: the bounded run-time contracts live in contracts/C08_rt.py (the deductive part, when
-it exists, is added here).
-"""
-from contracts import C08_rt
+"""C08 - SpecAugment draws stay within bounds and masking touches only masked cells."""
+from contracts import C08_rt, C08_vc
+from vf.pyvc import api
 
 CHECKERS = dict(C08_rt.CHECKERS)
 
 
 def run(ctx):
+    api.run_vcs(ctx, C08_vc.vcs(ctx), {"C08.draw.bounds": "spec_augment_draw_parameters: every drawn width/count/start/centre/shift respects the absolute and length-proportional limits, for all lengths, T, F, limits and uniform draws in [0,1)"})
     C08_rt.run_bounded(ctx)
